@@ -21,7 +21,7 @@ COQ_MODULE = "Channel.Model"; RUN_FN = "run"
 THEOREMS = ["C07_account", "C07_account_none_twice", "C07_run_completes", "C07_idle_implies_queue_empty", "C07_delivery_time",
             "C07_started_delivered_or_in_flight", "C07_busy_span", "C07_unbusy_stamp", "C07_fifo_start", "C07_direct_start",
             "C07_fifo_order", "C07_zero_jitter_preserves_order", "C07_queue_limit"]
-QUICK_N = 3000; THOROUGH_N = 120000
+QUICK_N = 3000; THOROUGH_N = 200000
 XCHECK_N = 40
 CLAIM = dict(
     text="Machine-checked (Coq 8.16, axiom-free) for every transmission-time function tx : len -> ns, every latency, jitter and "
